@@ -179,6 +179,44 @@ def native_holds(spec, obs, tree, scenario):
             if m is None:
                 return False
             return m.get(spec["field"]) == spec["value"]
+    if k in ("cross_flavour", "cross_flavour_tree"):
+        other = spec["other"]
+        obs2, tree2 = run_native(other, other.get("flavour", "sync"))
+        if k == "cross_flavour_tree":
+            if tree is None or tree2 is None:
+                return None
+            def norm(t):
+                return {p: (e.get("type"),) + ((e.get("len"), e.get("sha256")) if "index-v5" not in p else ())
+                        for p, e in t.items() if not p.startswith("cache/tmp/")}
+            return norm(tree) == norm(tree2)
+        i = spec["step"]
+        if i >= len(obs) or i >= len(obs2):
+            return None
+        def normo(o):
+            o = json.loads(json.dumps(o))
+            o.pop("step", None)
+            o.pop("message", None)
+            if o.get("outcome") == "err":
+                e = o.get("err", {})
+                o["err"] = {"variant": e.get("variant")}
+            v = o.get("value")
+            if isinstance(v, dict):
+                v.pop("handle", None)
+                if isinstance(v.get("meta"), dict) and not str(v["meta"].get("time", "")).isdigit():
+                    v["meta"].pop("time", None)
+            return o
+        a, b = normo(obs[i]), normo(obs2[i])
+        for o in (a, b):
+            v = o.get("value")
+            if isinstance(v, dict) and isinstance(v.get("meta"), dict):
+                t = v["meta"].get("time")
+                if t and len(str(t)) == 13:
+                    v["meta"].pop("time")       # wall-clock defaults differ between two runs
+            if isinstance(v, dict) and isinstance(v.get("list"), list):
+                for it in v["list"]:
+                    if "ok" in it and len(str(it["ok"].get("time", ""))) == 13:
+                        it["ok"].pop("time")
+        return a == b
     if k == "list_agrees":
         # native: the listing holds exactly one entry per key that lookup finds, equal to the lookup's
         lo = obs[spec["list_step"]] if spec["list_step"] < len(obs) else None
